@@ -232,3 +232,49 @@ def http_get(target, path, family=socket.AF_INET, src=None, timeout=5.0, unix=No
             body = rest[n + 2:]
         body = out
     return status, body, None
+
+
+def http_keepalive(target, paths, family=socket.AF_INET, src=None, timeout=5.0, unix=None, netns=None):
+    """Several GETs on ONE connection.  Returns list of status codes (None where the exchange broke)."""
+    out = []
+    try:
+        if unix:
+            s = socket.socket(socket.AF_UNIX, socket.SOCK_STREAM)
+        elif netns is not None:
+            with netns:
+                s = socket.socket(family, socket.SOCK_STREAM)
+        else:
+            s = socket.socket(family, socket.SOCK_STREAM)
+        s.settimeout(timeout)
+        if src and not unix:
+            s.bind(src)
+        s.connect(unix if unix else target)
+    except OSError:
+        return [None] * len(paths)
+    buf = b""
+    try:
+        for path in paths:
+            s.sendall(("GET %s HTTP/1.1\r\nHost: erbium\r\n\r\n" % path).encode())
+            while b"\r\n\r\n" not in buf:
+                d = s.recv(65536)
+                if not d:
+                    raise OSError("closed")
+                buf += d
+            head, _, rest = buf.partition(b"\r\n\r\n")
+            status = int(head.split()[1])
+            clen = 0
+            for line in head.split(b"\r\n")[1:]:
+                if line.lower().startswith(b"content-length:"):
+                    clen = int(line.split(b":", 1)[1].strip())
+            while len(rest) < clen:
+                d = s.recv(65536)
+                if not d:
+                    raise OSError("closed")
+                rest += d
+            buf = rest[clen:]
+            out.append(status)
+    except (OSError, ValueError, IndexError):
+        out += [None] * (len(paths) - len(out))
+    finally:
+        s.close()
+    return out
